@@ -205,7 +205,7 @@ def scaleFractional (fractional : Nat) (scale targetScale : Nat) : Nat :=
 /-- `fixedpoint.CheckRange` -/
 def checkRange (negative : Bool) (unsignedInteger fractional : Int)
     (minInt minFractional maxInt maxFractional : Int) : Bool :=
-  if negative && minInt == 0 then false else
+  if negative && minInt == 0 && (unsignedInteger != 0 || fractional != 0) then false else
   let integerValue := if negative then -unsignedInteger else unsignedInteger
   let lowOk :=
     if integerValue < minInt then false
@@ -265,12 +265,9 @@ def parseHexDigit (r : Nat) : Option Nat :=
   else if 'A'.toNat ≤ r ∧ r ≤ 'F'.toNat then some (r - 'A'.toNat + 10)
   else none
 
-/-- what `strings.Builder.WriteRune` appends for an `int32` rune value (already wrapped):
-    invalid runes (negative, surrogates, > 0x10FFFF) become U+FFFD -/
-def writeRune (r : Int) : Nat :=
-  if 0 ≤ r ∧ r < 0xD800 then r.toNat
-  else if 0xE000 ≤ r ∧ r ≤ 0x10FFFF then r.toNat
-  else 0xFFFD
+/-- `utf8.ValidRune` on an `int32` rune value: a Unicode scalar value -/
+def validRune (r : Int) : Bool :=
+  (0 ≤ r && r < 0xD800) || (0xE000 ≤ r && r ≤ 0x10FFFF)
 
 /-- `r2 = r2<<4 | parsed` on `rune` = `int32` -/
 def shiftInRune (r2 : Int) (d : Nat) : Int :=
@@ -312,8 +309,10 @@ def parseStringContent : Nat → List Nat → List Nat → Bool → List Nat × 
           if b != '{'.toNat then parseStringContent fuel cs'' acc true   -- expected `{`: continue
           else
             let (r2, valid, idx, last, rest) := unicodeDigits 8 cs'' 0 true 0 (some b)
-            let acc' := if idx > 0 && valid then writeRune r2 :: acc else acc
-            let err' := err || !valid
+            -- `utf8.ValidRune(r2)`: an escape that is not a scalar value is a syntax error
+            let scalar := validRune r2
+            let acc' := if idx > 0 && valid && scalar then r2.toNat :: acc else acc
+            let err' := err || !valid || (idx > 0 && valid && !scalar)
             -- `if r != '}' { advance() }` then the final switch on r
             if last == some '}'.toNat then parseStringContent fuel rest acc' err'
             else match rest with
